@@ -142,8 +142,14 @@ static int line_to_instr(struct instr *instr_data, char *filtered_asm_str) {
   }
   // special case for push instruction with immediate
   // (used push imm16 or imm32 when immediate is greater than 0x7f)
-  if (NAME(instr_data->key, push) && instr_data->cons > MAX_SIGNED_8BIT)
+  if (NAME(instr_data->key, push) && instr_data->cons > MAX_SIGNED_8BIT) {
     instr_data->key++;
+    // push sign extends its 32-bit immediate: keep the low 32 bits of a
+    // negative value
+    if (instr_data->cons >= NEG32BIT + NEG32BIT_CHECK) {
+      DO_NOT_PAD(instr_data->cons, instr_data->reduced_imm, MAX_UNSIGNED_32BIT);
+    }
+  }
   return EXIT_SUCCESS;
 }
 
